@@ -120,6 +120,21 @@ def main(pid=PID, focus="drop"):
         fixed_history(R); R.kill(); R.start(); R.drain(6); R.kill()
         check_history(ck, drv, W, R, "failing system call " + fs, fails, mism, extra=dict(fault=fs))
         ck.nontrivial("fault" + fs)
+    # ---------------------------------------------------------------- 5. the queue program refuses the bounce (every class of exit code)
+    # a failed submission of the bounce - permanent codes included - leaves the message and its bounce record in place; after a restart the
+    # bounce is submitted again and names the failed recipient
+    for code in ((31, 11, 40, 115, 54, 81, 91) if ck.thorough else (31, 53)):
+        W = qc.World(rb, "qqrefuse"); R = qc.Runner(W, {b"q1@local.example": [b"D"], b"q2@local.example": [b"K"]})
+        cnt = os.path.join(vlib.scratch(), "qqfail.%d" % code)
+        if os.path.exists(cnt): os.remove(cnt)
+        extra = {"QMAILQUEUE": os.path.join(vlib.VERIF, "harness", "qq_fail_first.sh"), "QQFAIL_COUNT": cnt, "QQFAIL_CODE": str(code), "QQFAIL_N": "1",
+                 "QQFAIL_REAL": os.path.join(W.home, "bin", "qmail-queue")}
+        R.start(send_extra=extra); R.service(0.3)
+        R.inject(b"s@x.example", [b"q1@local.example", b"q2@local.example"])
+        for _ in range(10): R.service(0.12)
+        R.kill(); R.start(send_extra=extra); R.drain(8); R.kill()
+        check_history(ck, drv, W, R, "queue program exits %d for the first bounce submission" % code, fails, mism, extra=dict(qq_exit=code))
+        ck.nontrivial("qqrefuse%d" % code); ck.count("bounce_submission_refused")
     finish(ck, fails, mism, "send:recipient-dropped")
 
 def finish(ck, fails, mism, what):
